@@ -452,6 +452,9 @@ func runOnce(sc Scenario, seed string) (outcome, []sim.Event, bool) {
 		}
 		if bad != "" {
 			r.violate("C03", "wrong-result", bad, "")
+			if sc.Kind == "equiv" {
+				r.violate("C06", "split", "after an equivocation: "+bad, "")
+			}
 		}
 	}
 	// C06: honest finishers hold identical views of every non-final broadcast round
@@ -569,6 +572,12 @@ func (r *runner) equiv(sess *protos.Session, label func(party.ID) string) {
 	}
 	var emittedA, emittedB []*protocol.Message
 	heldA := map[party.ID]*protocol.Message{}
+	var firstB party.ID
+	for _, j := range r.honest {
+		if group(j) == "B" && (firstB == "" || j < firstB) {
+			firstB = j
+		}
+	}
 	e.OnEmit = func(inst party.ID, m *protocol.Message) bool {
 		if inst != kA && inst != kB {
 			return true
@@ -606,12 +615,15 @@ func (r *runner) equiv(sess *protos.Session, label func(party.ID) string) {
 			case inst == kA && (group(j) == "A" || r.sc.Cross && int(m.RoundNumber) > r.sc.Round):
 				e.Net.PostTo(m, j, "e1")
 			case inst == kB && (group(j) == "B" || r.sc.Cross && int(m.RoundNumber) > r.sc.Round):
-				if r.sc.Both && m.Broadcast && int(m.RoundNumber) == r.sc.Round && group(j) == "B" {
+				if r.sc.Both && m.Broadcast && int(m.RoundNumber) == r.sc.Round && j == firstB {
 					// the same broadcast, but naming its recipient (the header filter lets it through)
+					// (the recipient field is part of the message hash: for the echo comparison this is yet another
+					// version of the broadcast, which nobody else holds - label "mut"; only ONE party gets such a
+					// version, two of them would be two different messages under one label)
 					c := sim.CloneMsg(m)
 					c.To = j
 					e.InheritLabels(c, m)
-					e.SetVar(c, "e2")
+					e.SetVar(c, "mut")
 					e.Net.PostTo(c, j, "e2")
 				} else {
 					e.Net.PostTo(m, j, "e2")
